@@ -96,6 +96,8 @@ def gen(rng, tier):
     yield from typed_grid(rng, tier == 'thorough')
     # a sanitise that ends early, then block writes over every register (always-fail ones included)
     yield from stale_state_histories(rng, 200 if tier == 'thorough' else 40)
+    # the same window sweeps over tables whose highest area ends at 2^32 (end addresses are not representable in 32 bits)
+    yield from at_top(_gen0, rng, tier, 120 if tier == 'thorough' else 25)
 
 def nontrivial(c):
     return True
